@@ -1429,10 +1429,34 @@ func (d *DFA) determinize(cache *DFACache, current *State, b byte) (*State, erro
 			// Max clears exceeded - fall back to NFA
 			return nil, clearErr
 		}
-		// Cache was cleared successfully. Return errCacheCleared to signal
-		// the search loop that all state pointers are now stale and it must
-		// re-obtain the start state at the current position.
-		return nil, errCacheCleared
+		// Cache was cleared successfully: all previously returned *State pointers
+		// and IDs are stale. The search must NOT restart from a start state at the
+		// current position (that would drop the in-flight NFA state set, e.g. a
+		// match begun before this byte). Re-insert a copy of the current state and
+		// the new state into the fresh cache and continue the same search.
+		cur := NewStateWithStride(InvalidState, current.nfaStates, current.isMatch, current.isFromWord, d.AlphabetLen())
+		cur.matchAtWordBoundary = current.matchAtWordBoundary
+		cur.matchAtNonWordBoundary = current.matchAtNonWordBoundary
+		curKey := ComputeStateKeyWithWordAndMatch(cur.nfaStates, cur.isFromWord, cur.isMatch)
+		if existing, ok := cache.Get(curKey); ok {
+			cur = existing
+		} else {
+			if _, insErr := cache.Insert(curKey, cur); insErr != nil {
+				return nil, ErrCacheFull // too small for even two states: fall back to the NFA
+			}
+			cache.registerState(cur)
+		}
+		if existing, ok := cache.Get(key); ok {
+			cache.SetFlatTransition(cur.id, int(classIdx), existing.ID())
+			return existing, nil
+		}
+		newState.id = InvalidState
+		if _, insErr := cache.Insert(key, newState); insErr != nil {
+			return nil, ErrCacheFull
+		}
+		cache.registerState(newState)
+		cache.SetFlatTransition(cur.id, int(classIdx), newState.ID())
+		return newState, nil
 	}
 
 	// Register state in ID lookup map
